@@ -285,7 +285,7 @@ def build(shape, size, rng):
         # well - the two halves of a split need different value formats)
         halves = size < 0
         n = abs(size)
-        font, names = make_font(1 + n)
+        font, names = make_font(2 + n)
         gm = font.getReverseGlyphMap()
         rec = lambda i: {"XPlacement": (i * 3) % 211 - 100, "YPlacement": 0 if halves else (i * 5) % 157 - 70, "XAdvance": 0 if halves and i < n // 2 else (i * 7) % 401 - 200 or 3, "YAdvance": 0}  # noqa: E731
         mapping = {names[1 + i]: B.buildValue({k_: v for k_, v in rec(i).items()}) for i in range(n)}
@@ -301,7 +301,15 @@ def build(shape, size, rng):
             for v in st.Value:
                 st.ValueFormat |= v.getFormat()
             st.ValueCount = len(st.Value)
-            sts = [st]
+            # ... followed, in the same lookup, by a catch-all subtable (one value for every glyph of the font):
+            # the first subtable covering a glyph applies, so the individual values win - also for the glyphs
+            # that end up in the second half of a split
+            ca = ot.SinglePos()
+            ca.Format = 1
+            ca.Coverage = B.buildCoverage(list(names[1:]), gm)
+            ca.Value = B.buildValue({"XPlacement": 500})
+            ca.ValueFormat = ca.Value.getFormat()
+            sts = [st, ca]
         else:
             sts = B.buildSinglePos(mapping, gm)
         assemble(font, "GPOS", [B.buildLookup(sts)], "kern")
@@ -312,6 +320,11 @@ def build(shape, size, rng):
                 i = r.randrange(n)
                 v = rec(i)
                 out.append(([1 + i, 0], ("pos0", (ADV + v["XAdvance"], v["XPlacement"], v["YPlacement"]))))
+            if halves:
+                out.append(([1 + n, 0], ("pos0", (ADV, 500, 0))))
+                for i in (n // 2 - 1, n // 2, n // 2 + 1, n - 1):
+                    v = rec(i)
+                    out.append(([1 + i, 0], ("pos0", (ADV + v["XAdvance"], v["XPlacement"], v["YPlacement"]))))
             return out
 
         return font, samples
